@@ -31,6 +31,7 @@ type structOffender struct {
 
 // spec syntax:
 //   writers:<pkgname>.<Type>.<field>=<funcKey>,<funcKey>,…
+//   callswith:<funcKey>=<pkgpath>.<Func>(<Type>.<field>)   (the function or one of its closures calls Func with a slice of that field of a heap object)
 //   allpaths:<funcKey>=close(<field>)|go(<method name>)|…   (every path from entry to a return passes one of these)
 //   nocall:<funcKey-prefix-list>-><funcKey-prefix-list>
 //   nodirectcall:<funcKey-list>-><funcKey-list>   (calls in the bodies of the first list only)
@@ -58,6 +59,8 @@ func (eng *Engine) structuralObligations(pc *PropConfig) []structObl {
 			out = append(out, eng.writersObl(strings.TrimPrefix(s, "writers:"), false))
 		case strings.HasPrefix(s, "mapwriters:"):
 			out = append(out, eng.mapWritersObl(strings.TrimPrefix(s, "mapwriters:")))
+		case strings.HasPrefix(s, "callswith:"):
+			out = append(out, eng.callsWithObl(strings.TrimPrefix(s, "callswith:")))
 		case strings.HasPrefix(s, "allpaths:"):
 			out = append(out, eng.allPathsObl(strings.TrimPrefix(s, "allpaths:")))
 		case strings.HasPrefix(s, "nocall:"):
@@ -424,4 +427,159 @@ func (eng *Engine) allPathsObl(spec string) structObl {
 		return structObl{Name: name, OK: false, Detail: "a path reaches the return at " + strings.Join(bad, ", ") + " without any of: " + parts[1]}
 	}
 	return structObl{Name: name, OK: true}
+}
+
+// callswith:<funcKey>=<pkgpath>.<Func>(<Type>.<field>) : somewhere in the function (or a closure nested in it) there is
+// a call of <pkgpath>.<Func> whose first argument is a slice x.<field>[:] of the <field> of a <Type> object reached
+// through a pointer (a field of a local COPY of the object does not count).  Used where a contract relies on "this
+// array field is filled by that call".
+func (eng *Engine) callsWithObl(spec string) structObl {
+	name := "callswith:" + spec
+	parts := strings.SplitN(spec, "=", 2)
+	if len(parts) != 2 || !strings.HasSuffix(parts[1], ")") || !strings.Contains(parts[1], "(") {
+		return structObl{Name: name, OK: false, Detail: "bad spec"}
+	}
+	fn := eng.FuncByKey(strings.TrimSpace(parts[0]))
+	if fn == nil {
+		return structObl{Name: name, OK: false, Detail: "contract-target-missing: " + parts[0]}
+	}
+	i := strings.IndexByte(parts[1], '(')
+	callee := parts[1][:i]
+	field := parts[1][i+1 : len(parts[1])-1]
+	j := strings.LastIndexByte(callee, '.')
+	if j < 0 {
+		return structObl{Name: name, OK: false, Detail: "bad callee"}
+	}
+	pkgPath, fname := callee[:j], callee[j+1:]
+	var fns []*ssa.Function
+	var collect func(f *ssa.Function)
+	collect = func(f *ssa.Function) {
+		fns = append(fns, f)
+		for _, a := range f.AnonFuncs {
+			collect(a)
+		}
+	}
+	collect(fn)
+	fromPointer := func(v ssa.Value) bool {
+		// the struct whose field is addressed is reached through a pointer value that is not a local Alloc of the struct itself
+		for depth := 0; depth < 6; depth++ {
+			switch x := v.(type) {
+			case *ssa.Alloc:
+				_, isStruct := under(x.Type().(*types.Pointer).Elem()).(*types.Struct)
+				return !isStruct
+			case *ssa.UnOp:
+				return true // loaded pointer (receiver / captured variable / field)
+			case *ssa.Parameter, *ssa.FreeVar:
+				return true
+			case *ssa.FieldAddr:
+				v = x.X
+			default:
+				return false
+			}
+		}
+		return false
+	}
+	for _, f := range fns {
+		for _, b := range f.Blocks {
+			for _, ins := range b.Instrs {
+				ci, ok := ins.(ssa.CallInstruction)
+				if !ok {
+					continue
+				}
+				cal := ci.Common().StaticCallee()
+				if cal == nil || cal.Name() != fname || pkgPathOf(cal) != pkgPath || len(ci.Common().Args) == 0 {
+					continue
+				}
+				sl, ok := ci.Common().Args[0].(*ssa.Slice)
+				if !ok {
+					continue
+				}
+				fa, ok := sl.X.(*ssa.FieldAddr)
+				if !ok {
+					continue
+				}
+				pt := fa.X.Type().Underlying().(*types.Pointer).Elem()
+				if typeKey(pt)+"."+under(pt).(*types.Struct).Field(fa.Field).Name() != field {
+					continue
+				}
+				if fromPointer(fa.X) {
+					return structObl{Name: name, OK: true}
+				}
+			}
+		}
+	}
+	// one level of indirection: the field's address (or a slice of it) is handed to a helper of the repository that
+	// passes (a slice of) that parameter on to <pkgpath>.<Func>
+	isFieldRef := func(v ssa.Value) bool {
+		if sl, ok := v.(*ssa.Slice); ok {
+			v = sl.X
+		}
+		fa, ok := v.(*ssa.FieldAddr)
+		if !ok {
+			return false
+		}
+		pt := fa.X.Type().Underlying().(*types.Pointer).Elem()
+		return typeKey(pt)+"."+under(pt).(*types.Struct).Field(fa.Field).Name() == field && fromPointer(fa.X)
+	}
+	derivesFrom := func(v ssa.Value, p *ssa.Parameter) bool {
+		for depth := 0; depth < 6; depth++ {
+			switch x := v.(type) {
+			case *ssa.Parameter:
+				return x == p
+			case *ssa.Slice:
+				v = x.X
+			case *ssa.UnOp:
+				// NaiveForm spills parameters: *(&local) where the local was stored from the parameter
+				if a, ok := x.X.(*ssa.Alloc); ok {
+					for _, r := range *a.Referrers() {
+						if st, ok := r.(*ssa.Store); ok && st.Addr == a {
+							if pp, ok := st.Val.(*ssa.Parameter); ok && pp == p {
+								return true
+							}
+						}
+					}
+				}
+				return false
+			default:
+				return false
+			}
+		}
+		return false
+	}
+	for _, f := range fns {
+		for _, b := range f.Blocks {
+			for _, ins := range b.Instrs {
+				ci, ok := ins.(ssa.CallInstruction)
+				if !ok {
+					continue
+				}
+				g := ci.Common().StaticCallee()
+				if g == nil || !strings.HasPrefix(pkgPathOf(g), repoModule) || len(g.Blocks) == 0 {
+					continue
+				}
+				for ai, a := range ci.Common().Args {
+					if !isFieldRef(a) || ai >= len(g.Params) {
+						continue
+					}
+					p := g.Params[ai]
+					for _, gb := range g.Blocks {
+						for _, gi := range gb.Instrs {
+							gc, ok := gi.(ssa.CallInstruction)
+							if !ok {
+								continue
+							}
+							cal := gc.Common().StaticCallee()
+							if cal == nil || cal.Name() != fname || pkgPathOf(cal) != pkgPath || len(gc.Common().Args) == 0 {
+								continue
+							}
+							if derivesFrom(gc.Common().Args[0], p) {
+								return structObl{Name: name, OK: true}
+							}
+						}
+					}
+				}
+			}
+		}
+	}
+	return structObl{Name: name, OK: false, Detail: "no call of " + callee + " with a slice of " + field + " of a heap object in " + parts[0] + " or its closures"}
 }
